@@ -54,7 +54,46 @@ def overflow_table() -> JobResult:
                 _overflow_type(res, endian, "E", f"{kw}:{base}", w, signed, lambda cs, x: cs.E(x), decl)
         for pt, w in (("uint8", 8), ("uint16", 16), ("uint32", 32), ("uint64", 64)):
             _overflow_type(res, endian, "uint8 *", f"ptr:{pt}", w, False, lambda cs, x: x, "", pointer=pt)
+        _overflow_bitfields(res, endian)
     return res
+
+
+def _overflow_bitfields(res, endian):
+    """Bit-fields are fixed-width integer fields too: a value that does not fit its width must be refused, in every position of the unit
+    (a silently truncated value also corrupts the neighbouring fields)."""
+    from dissect.cstruct import cstruct
+
+    for storage, sbits in (("uint8", 8), ("uint16", 16), ("int16", 16), ("uint32", 32), ("uint24", 24), ("E", 8)):
+        for widths in ((4, 4), (1, 7), (3, 3, 2)) if sbits == 8 else ((4, sbits - 4), (sbits - 1, 1), (5, 5, sbits - 10)):
+            decl = "enum E : uint8 { A = 1, B = 2 };\n" if storage == "E" else ""
+            names = [f"b{i}" for i in range(len(widths))]
+            text = decl + "struct B { " + " ".join(f"{storage} {n} : {w};" for n, w in zip(names, widths)) + " uint8 t; };"
+            for pos, w in enumerate(widths):
+                for x in ((1 << w), (1 << w) + 1, (1 << (w + 1)) - 1, -1, 1 << sbits):
+                    cs = cstruct(endian=endian)
+                    cs.load(text)
+                    res.evaluations += 1
+                    res.states += 1
+                    res.transitions += 1
+                    case = {"table": "overflow", "type": f"bits:{storage}", "endian": endian, "value": str(x), "context": f"widths={list(widths)} field={pos}"}
+                    vals = {n: 0 for n in names}
+                    try:
+                        try:
+                            vals[names[pos]] = cs.E(x) if storage == "E" else x
+                        except (ValueError, OverflowError, TypeError):
+                            res.nontrivial += 1
+                            continue
+                        if storage == "E":
+                            vals = {n: cs.E(v) if isinstance(v, int) and not hasattr(v, "name") else v for n, v in vals.items()}
+                        out = cs.B(t=0x7E, **vals).dumps()
+                    except Exception:  # noqa: BLE001
+                        res.nontrivial += 1
+                        continue
+                    res.violations.append(
+                        Violation("overflow:silently-written", f"overflow|bits:{storage}|{len(widths)}", case,
+                                  f"{text!r} {endian} value {x} for {names[pos]} ({w} bits): dumps returned {out.hex()} instead of raising",
+                                  {"type": f"bits:{storage}", "context": "bit-field", "endian": endian}))
+    res.samples.append({"overflow_table": "bit-fields", "storage": ["uint8", "uint16", "int16", "uint32", "uint24", "enum:uint8"]})
 
 
 def _overflow_type(res, endian, tname, label, w, signed, wrap, decl, pointer=None):
@@ -112,7 +151,7 @@ def meta(tier):
         "rule": "case = (definition, endian, align, reader, value); values are obtained both by parsing (model-encoded assignments with <=1 "
         "deviating field + raw patterns) and by direct construction from the model's plain values; p=dumps(v) via 4 call forms, T(p)==v by "
         "the library's == and by normalised comparison, reading p+sentinel consumes len(p); plus the exhaustive overflow table "
-        "(integer-like types x 6 contexts x 5 out-of-range values must raise); non-trivial = round-trip fully checked / overflow rejected",
+        "(integer-like types x 6 contexts x 5 out-of-range values, and bit-fields of 6 storage types x 3 width splits x every position x 5 values that do not fit, must raise); non-trivial = round-trip fully checked / overflow rejected",
         "bounds": {"definitions": "D(wide,2)+D(core-4,3)+[EOF] tails+long-run" if tier == "quick" else "D(wide,3)+D(core,4)+[EOF] tails+long-run", "deviations": 1},
         "assumptions": ["NaN values are excluded from equality", "bit-fields are not in the overflow table (C06 covers values that fit)"],
     }
